@@ -106,7 +106,7 @@ def make_case(tier, seed, index):
         if d2 < d1:
             d1 = DEFAULT_LATENCY
         return {"kind": "pos", "framing": fr, "size": size, "cmd": _cmd(fr, size, rnd), "keep_alive": ka,
-                "timeout": tau, "retries": rnd.choice([0, 1, 3]), "timing": tm,
+                "timeout": tau, "retries": rnd.choice([0, 1, 3]), "timing": tm, "aa55_words": index % 3 == 1,
                 "faults": [{"k": "frag", "s": s, "d1": d1, "d2": d2}]}
     fr = rnd.choice(FRAMINGS)
     size = rnd.choice([1, 2, 3, 5, 8, 13, 30, 60, 125]) if fr != "aa55" else rnd.choice([1, 2, 4, 8, 16, 40, 100, 255])
@@ -222,6 +222,15 @@ def run_case(case):
     dev = SimInverter(mode="stamp")
     if case["cmd"]["op"] == "aa55":
         dev.blocks[0x0106] = _aa55_block(case["cmd"]["blocklen"])
+    if case.get("aa55_words"):
+        # every register / block word holds 0xAA55 (a legal value): wherever the answer is cut in front of a word, the
+        # exact remainder starts with the bytes a new frame would start with
+        if case["cmd"]["op"] == "aa55":
+            n = case["cmd"]["blocklen"]
+            dev.blocks[0x0106] = (b"\xaa\x55" * (n // 2 + 1))[:n]
+        else:
+            dev = SimInverter(mode="file", fill="constw")
+            dev.const_word = 0xAA55
     world.net.add_device(C.HOST, C.port_of(tr), dev)
     proto = C.make_protocol(tr, tau, r, case["keep_alive"])
     state = {}
